@@ -222,6 +222,29 @@ def parse_case(fields):
     return out
 
 
+def encode_case(fields):
+    """make_command_v2 with the body fields of a case as control parameters -> what a strict decoder finds in the
+    ControlParameters component, shaped like a parse_response result so that NfdRegResp judges it."""
+    from ndn.app_support.nfd_mgmt import make_command_v2
+    from ndn import encoding as enc
+    kw = {}
+    for fname, _, kind in regkit.BODY_FIELDS:
+        v = fields['body'][fname]
+        if v != 'none':
+            kw[fname] = int(v[1:]) if kind == 'uint' else v[1:]
+    try:
+        name = make_command_v2('rib', 'register', None, **kw)
+        got = regkit.decode_control_parameters(enc.Component.get_value(name[-1]))
+    except regkit.WireError as e:
+        return {'raised': 'WireError:' + e.check}
+    except BaseException as e:  # noqa
+        return {'raised': type(e).__name__}
+    out = {'raised': 'none', 'status_code': fields['status_code'], 'status_text': fields['status_text']}
+    for fname, _, _ in regkit.BODY_FIELDS:
+        out[fname] = got.get(fname, 'none')
+    return out
+
+
 def judge_resp(ctx, recs, tag):
     tf = os.path.join(tlc.BUILD, 'c17-resp-%s-%s.ndjson' % (tag, ctx.tier))
     with open(tf, 'w') as f:
@@ -235,8 +258,9 @@ def judge_resp(ctx, recs, tag):
         rec = recs[i - 1]
         cls = 'body' if rec['fields']['present'] else 'no-body'
         got = rec['result'].get('raised', 'none')
-        ctx.violation('C17/parse_response/%s/%s' % (cls, got if got != 'none' else 'wrong-fields'),
-                      'parse_response(%s) returned %s' % (json.dumps(rec['fields']), json.dumps(rec['result'])),
+        fn = rec.get('fn', 'parse_response')
+        ctx.violation('C17/%s/%s/%s' % (fn, cls, got if got != 'none' else 'wrong-fields'),
+                      '%s on %s gave %s' % (fn, json.dumps(rec['fields']), json.dumps(rec['result'])),
                       {'kind': 'resp', 'rec': rec})
     return rejected
 
@@ -262,6 +286,10 @@ def stage_resp_b(ctx):
                           'parse_response on %s returned %s, expected %s' % (json.dumps(c['fields']), json.dumps(got),
                                                                              json.dumps(c['expected'])),
                           {'kind': 'resp', 'rec': {'fields': c['fields'], 'result': got}})
+        if c['fields']['present']:
+            # the other direction: the same values as control parameters of a command, decoded by the strict reader
+            recs.append({'fn': 'make_command_v2', 'fields': c['fields'], 'result': encode_case(c['fields'])})
+            ctx.evaluations += 1
         if c['fields']['present'] and sum(1 for v in c['fields']['body'].values() if v != 'none') >= 1:
             ctx.nt(['resp', c['fields']])
     ctx.note('B parse_response: %d TLC-enumerated ControlResponses decoded' % len(cases))
@@ -336,7 +364,7 @@ def record(front, routes, rng, ncalls=8, nev=40):
             d = 1 if rng.random() < 0.35 else 0
             if a == 'Call':
                 v = rng.choice(['register', 'unregister'])
-                p = rng.choice(['a', 'b', 'c'])
+                p = rng.choice(['a', 'b', 'root'])
                 wf = front == 'legacy' and v == 'register' and p not in filt and rng.random() < 0.5
                 if wf:
                     filt.add(p)
@@ -382,7 +410,7 @@ def judge(ctx, front, routes, recs, tag, forced=None):
         for r in recs:
             f.write(json.dumps(r) + '\n')
     cfgp = os.path.join(tlc.BUILD, 'NfdRegTrace_%s_%d.cfg' % (front, routes))
-    tlc.write_cfg(cfgp, spec='TSpec', constants=consts(front, 8, ['a', 'b', 'c'], routes, 2, 100000, ALL_KINDS,
+    tlc.write_cfg(cfgp, spec='TSpec', constants=consts(front, 8, ['a', 'b', 'root'], routes, 2, 100000, ALL_KINDS,
                                                        *((forced[1], forced[0]) if forced else (DEVS_OF[front],))),
                   invariants=['TypeOK'], constraints=['Mark'], postcondition='Post')
     r, rejected = tlc.validate_traces('NfdRegTrace', cfgp, tf, tag='c17tr')
@@ -546,7 +574,7 @@ def run(ctx):
     if 'B' in ctx.stages:
         for front in ('v2', 'legacy'):
             has, unk = forced[front]
-            stage_b(ctx, front, 'replies', consts(front, 2, ['a'], 0, 1, 1, ALL_KINDS, unk, has), 0, 2,
+            stage_b(ctx, front, 'replies', consts(front, 2, ['root'], 0, 1, 1, ALL_KINDS, unk, has), 0, 2,
                     max_paths=ctx.pick(500, None))
             stage_b(ctx, front, 'conc', consts(front, 3, ['a'], 0, 1, ctx.pick(1, 2), ctx.pick(['r200'], ['r200', 'r400']), unk, has), 0, 3,
                     max_paths=ctx.pick(500, 15000))
@@ -569,6 +597,8 @@ def run(ctx):
         for _ in range(ctx.pick(400, 20000)):
             f = random_resp(ctx.rng)
             recs.append({'fields': f, 'result': parse_case(f)})
+            if f['present']:
+                recs.append({'fn': 'make_command_v2', 'fields': f, 'result': encode_case(f)})
         judge_resp(ctx, recs, 'c')
         ctx.traces += len(recs)
         ctx.evaluations += len(recs)
@@ -607,8 +637,9 @@ def replay(ctx, path):
             print(v['sig'], '-', v['what'][:300])
         return 1 if (rej or ctx.violations) else 0
     if obj.get('kind') == 'resp':
-        got = parse_case(obj['rec']['fields'])
-        print(json.dumps(obj['rec']['fields']), '->', json.dumps(got))
+        fn = encode_case if obj['rec'].get('fn') == 'make_command_v2' else parse_case
+        got = fn(obj['rec']['fields'])
+        print(obj['rec'].get('fn', 'parse_response'), json.dumps(obj['rec']['fields']), '->', json.dumps(got))
         return 0
     print(json.dumps(obj, indent=1)[:4000])
     return 0
